@@ -72,6 +72,7 @@ type schedRun struct {
 	dead       bool
 	extra      []h.Violation // oracle findings recorded while the schedule runs
 	deadLabels []string      // what the blocked threads of a deadlocked schedule are waiting for
+	deadClose  bool          // one of them is a Close call
 	atRemoval  map[int]int   // updates a subscriber held when its RemoveSubscriber returned
 }
 
@@ -548,6 +549,9 @@ func runSchedCaseT(c *h.Ctx, r *h.Report, cs schedCase) (trace []int, disagreed 
 				for j := range done {
 					if !done[j] {
 						sr.deadLabels = append(sr.deadLabels, label[j])
+						if ph.Ops[j].Op == "close" {
+							sr.deadClose = true // a Close call is among the threads that wait for ever
+						}
 					}
 				}
 
@@ -620,6 +624,10 @@ func runSchedCaseT(c *h.Ctx, r *h.Report, cs schedCase) (trace []int, disagreed 
 	}
 	if sr.dead {
 		r.Violate(h.Violation{Key: "C14:deadlock", What: fmt.Sprintf("no operation can make progress: every unfinished thread is waiting (%s)", strings.Join(sr.deadLabels, ", ")), Replay: rp})
+		if sr.deadClose {
+			// C15: closing the hub ends every stream and returns — here the Close call itself waits for ever
+			r.Violate(h.Violation{Key: "C15:close-never-returns", What: fmt.Sprintf("Close is blocked for ever, with every other unfinished operation (%s): the streams it has not reached are never ended, the database is never released", strings.Join(sr.deadLabels, ", ")), Replay: rp})
+		}
 		for _, l := range sr.deadLabels {
 			if strings.HasSuffix(l, "<-") {
 				// not a lock: a hub operation waits for ever on a channel of a subscriber (C13: nothing a subscriber
